@@ -60,6 +60,7 @@ type Scenario struct {
 	Tag         string              `json:"tag"`
 	Fn          bool                `json:"fn"` // outcomes are a function of the action alone (C10 same outcome)
 	Api         []string            `json:"api"`
+	ApiExpect   []int               `json:"apiexpect"` // per op: expected number of Start calls returning nil (99: none made)
 	Members     []Member            `json:"members"`
 	NoRecovery  bool                `json:"norecovery"`
 	MaxAgeS     int                 `json:"maxages"`
